@@ -7,7 +7,7 @@ package main
 func init() {
 	registry["C01"] = &propSpec{
 		Rules:       []ruleFn{ruleC01Range, ruleC01Head, ruleC17Srv, ruleC06Hole, ruleC06Snapstep, ruleC06Run},
-		Explanation: "Necessary structural conditions of block read-back semantics, decided on every path of the source: (C01-RANGE) each controller call into the replicator's WriteAt/ReadAt is dominated by the exact facts off>=0 and off+len(b)<=c.size under the controller lock; (C01-HEADWRITE) fullWriteAt writes only the head file and records every written sector in the block map unconditionally, no other function writes a chain file, read-modify-write of edge blocks runs under rmLock, RemoveIndex shifts every entry >= index, lookup probes from the head downwards, preload records every extent under the scanned file; (C17-SRV-GUARD) the replica data path dereferences the open replica only under the server read lock and a nil test.",
+		Explanation: "Necessary structural conditions of block read-back semantics, decided on every path of the source: (C01-RANGE) each controller call into the replicator's WriteAt/ReadAt is dominated by the exact facts off>=0 and off+len(b)<=c.size under the controller lock; (C01-HEADWRITE) fullWriteAt writes only the head file and records every written sector in the block map unconditionally, no other function writes a chain file, read-modify-write of edge blocks runs under rmLock, RemoveIndex shifts every entry >= index, lookup probes from the head downwards, preload records every extent under the scanned file; (C17-SRV-GUARD) the replica data path dereferences the open replica only under the server read lock and a nil test. (C06-RUN) a pending run of blocks to punch is extended only on the equality edge of the contiguity test current == offset + length.",
 		NotDecided:  "byte-level equality of what is read with what was written (values of the run-time map, FIEMAP extents, unaligned split arithmetic), zero-fill of never-written ranges.",
 	}
 	registry["C02"] = &propSpec{
@@ -17,27 +17,27 @@ func init() {
 	}
 	registry["C03"] = &propSpec{
 		Rules:       []ruleFn{ruleC03Thresh, ruleC03Gate, ruleFresh("C03-FRESH", fCtl+"UpdateVolStatus"), ruleC05Monitor("C03-MONITOR"), ruleGuardedBy("C03-GUARDEDBY")},
-		Explanation: "Decides that (C03-THRESH) ReadOnly is false exactly on the edge rw >= (RF+quorum)/2+1 with rw counting Mode==RW entries; (C03-GATE) every mutating backend call is dominated by ReadOnly==false tested after taking the controller write lock, in the same lock region; (C03-FRESH) a typestate analysis with interprocedural, error-split summaries shows that at every release of the controller lock no membership or mode change is pending without UpdateVolStatus().",
+		Explanation: "Decides that (C03-THRESH) ReadOnly is false exactly on the edge rw >= (RF+quorum)/2+1 with rw counting Mode==RW entries; (C03-GATE) every mutating backend call is dominated by ReadOnly==false tested after taking the controller write lock, in the same lock region; (C03-FRESH) a typestate analysis with interprocedural, error-split summaries shows that at every release of the controller lock no membership or mode change is pending without UpdateVolStatus(). (GUARDEDBY) every read / write of a lock-protected field (frozen guard table) happens with the protecting mutex class held on all paths, in the function or at every call site of it.",
 		NotDecided:  "that replicas believed RW are up to date; liveness beyond freshness at unlock.",
 	}
 	registry["C04"] = &propSpec{
 		Rules:       []ruleFn{ruleBuildRW("C04-READERS"), ruleC04Lists("C04-LISTS"), ruleIndexMapUse("C04-READSRC"), ruleC04Verify("C04-VERIFY"), ruleC04Promote("C04-PROMOTE"), ruleC04ReadGate, ruleDetach("C04-DETACH"), ruleC05Monitor("C04-ERRSUPPRESS"), ruleC19Promote("C04-CLONEGATE"), ruleC09, ruleGuardedBy("C04-GUARDEDBY")},
-		Explanation: "Decides that readers are exactly the mode==RW backends and are rebuilt after every change of the backend map or of a mode; reads are issued only from replicator.ReadAt on r.readers[index] and a failed reader is reported under the same index; the only promotion sites are the allow-listed ones; VerifyRebuildReplica promotes only after, in order, WO mode, both chains and the checkpoint fetched, checkpoint containment, DeepEqual of the chains, the RW counter read, the replica switched to RW and the counter copied; the reference replica is selected under Mode==RW; ERR is sticky.",
+		Explanation: "Decides that readers are exactly the mode==RW backends and are rebuilt after every change of the backend map or of a mode; reads are issued only from replicator.ReadAt on r.readers[index] and a failed reader is reported under the same index; the only promotion sites are the allow-listed ones; VerifyRebuildReplica promotes only after, in order, WO mode, both chains and the checkpoint fetched, checkpoint containment, DeepEqual of the chains, the RW counter read, the replica switched to RW and the counter copied; the reference replica is selected under Mode==RW; ERR is sticky. (GUARDEDBY) every read / write of a lock-protected field (frozen guard table) happens with the protecting mutex class held on all paths, in the function or at every call site of it.",
 		NotDecided:  "that an equal chain implies equal data; round-robin fairness.",
 	}
 	registry["C05"] = &propSpec{
 		Rules:       []ruleFn{ruleDetach("C05-DETACH"), ruleC05Monitor("C05-MONITOR"), ruleC04Lists("C05-STOPIO"), ruleC05Ping("C05-PING"), ruleC15Client, ruleC02Majority, ruleC02Decode, ruleIndexMapUse("C05-INDEXMAP"), ruleC04ReadGate, ruleC14Block, ruleErrFlow("C05-ERRFLOW"), ruleC04Promote("C05-STICKY")},
-		Explanation: "Decides that every failure detector ends in ERR marking plus removal under the controller lock (I/O error paths, monitor goroutine, ping failure, rpc time-out / transport error poisoning the client and failing all pending requests), that a removed backend leaves the reader/writer lists at once, that backend I/O is issued only through those lists, and that a failing strict minority still yields the majority encoding accepted by the controller.",
+		Explanation: "Decides that every failure detector ends in ERR marking plus removal under the controller lock (I/O error paths, monitor goroutine, ping failure, rpc time-out / transport error poisoning the client and failing all pending requests), that a removed backend leaves the reader/writer lists at once, that backend I/O is issued only through those lists, and that a failing strict minority still yields the majority encoding accepted by the controller. (C05-STICKY) a replica marked ERR is never switched back by a mode update.",
 		NotDecided:  "wall-clock promptness; which detector fires first; that the survivors hold the data.",
 	}
 	registry["C06"] = &propSpec{
 		Rules:       []ruleFn{ruleC06Hole, ruleC06Run, ruleC06Snapstep, ruleC01Head, ruleC11Sync, ruleC06RevertCtl, ruleC12Rollback, ruleC12, ruleC08CloseWho},
-		Explanation: "Decides that every hole-punch request targets the file whose index the dominating strict guard compared with the latest user-created snapshot index (guard/use consistency via files[G] or paired phis), that UserCreatedSnap changes in lock-step with the file list and SnapIndx is set only under the user-created flag, that the hole queue is drained before files are unlinked or closed, that only fullWriteAt writes chain files (and only the head), and that revert creates the new head on the requested snapshot, commits volume.meta before removing the old head and reloads with preload.",
+		Explanation: "Decides that every hole-punch request targets the file whose index the dominating strict guard compared with the latest user-created snapshot index (guard/use consistency via files[G] or paired phis), that UserCreatedSnap changes in lock-step with the file list and SnapIndx is set only under the user-created flag, that the hole queue is drained before files are unlinked or closed, that only fullWriteAt writes chain files (and only the head), and that revert creates the new head on the requested snapshot, commits volume.meta before removing the old head and reloads with preload. (C06-RUN) a pending run of blocks to punch is extended only on the equality edge of the contiguity test current == offset + length. (C08-CLOSEWHO) the superseded instance is not closed after a revert; RemoveIndex recomputes SnapIndx as the LAST user-created entry.",
 		NotDecided:  "that the snapshot image equals the volume at the instant it was taken; byte identity after preload/reopen; what FIEMAP reports.",
 	}
 	registry["C07"] = &propSpec{
 		Rules:       []ruleFn{ruleC07AddOrder("C07-ADD-ORDER"), ruleC07Merge, ruleC06Run, ruleC07Sync, ruleC07SyncFiles, ruleCanAdd("C07-ONE-WO"), ruleC04Verify("C07-VERIFY"), ruleBuildRW("C07-WRITERS"), ruleIndexMapUse("C07-INDEXMAP"), ruleC07Copy("C07-COPY"), ruleC01Head, ruleErrFlow("C07-ERRFLOW"), ruleSendFile("C07-SENDFILE")},
-		Explanation: "Decides the ordering obligations of a rebuild: admission only after canAdd, the same snapshot on old and new replicas, WO mode on replica, list entry and wrapper; at most one WO unless the newcomer has the strictly greater revision and the old WO was removed; punching off and rebuilding flag set before the copy; ReloadReplica -> SyncDir -> UpdateLUNMap -> VerifyRebuildReplica -> SetRebuilding(false), each after the success of its predecessor; the live block map is overwritten by the preloaded one only where live <= preloaded; WO replicas receive every write; promotion as in C04-VERIFY.",
+		Explanation: "Decides the ordering obligations of a rebuild: admission only after canAdd, the same snapshot on old and new replicas, WO mode on replica, list entry and wrapper; at most one WO unless the newcomer has the strictly greater revision and the old WO was removed; punching off and rebuilding flag set before the copy; ReloadReplica -> SyncDir -> UpdateLUNMap -> VerifyRebuildReplica -> SetRebuilding(false), each after the success of its predecessor; the live block map is overwritten by the preloaded one only where live <= preloaded; WO replicas receive every write; promotion as in C04-VERIFY. (C06-RUN) a pending run of blocks to punch is extended only on the equality edge of the contiguity test current == offset + length. (C07-SENDFILE) a file transfer counts as done only after two consecutive successful polls with exit code 0.",
 		NotDecided:  "byte identity (copying is done by external ssync); interleavings and crash points of three processes.",
 	}
 	registry["C08"] = &propSpec{
@@ -47,32 +47,32 @@ func init() {
 	}
 	registry["C09"] = &propSpec{
 		Rules:       []ruleFn{ruleC09, ruleRevParse("C09-REVPARSE"), ruleC09Register, ruleC09RegWire},
-		Explanation: "Decides that the post-election start signal is guarded by the registered-majority facts, that a rebuilding replica never becomes leader, that the leader is replaced only by the registered entry with a strictly greater RevCount (the stored value is that entry's key), that StartSignalled is set only after a delivered signal and an unreachable leader is deleted from the registry before its name is cleared, that Start is honoured only from the signalled leader with no replica attached, that lower counters are marked ERR against the running maximum, and that revision counts are parsed as 64-bit decimals.",
+		Explanation: "Decides that the post-election start signal is guarded by the registered-majority facts, that a rebuilding replica never becomes leader, that the leader is replaced only by the registered entry with a strictly greater RevCount (the stored value is that entry's key), that StartSignalled is set only after a delivered signal and an unreachable leader is deleted from the registry before its name is cleared, that Start is honoured only from the signalled leader with no replica attached, that lower counters are marked ERR against the running maximum, and that revision counts are parsed as 64-bit decimals. (C09-REGWIRE) both hand-written conversions of a registration carry every field over from its own source; the registry entry dropped with a replica is found by the tcp://<key>:9502 comparison.",
 		NotDecided:  "truthfulness of reported counts; liveness probes; orderings of registrations as such.",
 	}
 	registry["C10"] = &propSpec{
 		Rules:       []ruleFn{ruleC10, ruleRevParse("C10-REVPARSE"), ruleC04Verify("C10-PROMOTE-COPY"), ruleC17Srv, ruleC09, ruleErrFlow("C10-ERRFLOW"), ruleC08Order("C10-INIT"), ruleGuardedBy("C10-GUARDEDBY")},
-		Explanation: "Decides that the counter is increased exactly once per write, only in RW mode and only after the data write succeeded; that the cache and the counter file are touched only by the revision-counter API under revisionLock, the cache after the persist and with the persisted value; that setting requires RW; and that promotion copies the RW replica's counter after switching the replica to RW, under the controller lock.",
+		Explanation: "Decides that the counter is increased exactly once per write, only in RW mode and only after the data write succeeded; that the cache and the counter file are touched only by the revision-counter API under revisionLock, the cache after the persist and with the persisted value; that setting requires RW; and that promotion copies the RW replica's counter after switching the replica to RW, under the controller lock. (GUARDEDBY) every read / write of a lock-protected field (frozen guard table) happens with the protecting mutex class held on all paths, in the function or at every call site of it.",
 		NotDecided:  "monotonicity across a crash (atomicity of one O_DIRECT 4 KiB write); equality of counters across replicas as a run-time fact.",
 	}
 	registry["C11"] = &propSpec{
 		Rules:       []ruleFn{ruleC11Refuse("C11-REFUSE"), ruleC11Sync, ruleC11Rest, ruleC12, ruleC06Snapstep, ruleErrFlow("C11-ERRFLOW")},
-		Explanation: "Decides the refusals (head, latest, base, non-RW) dominating every mark-removed / unlink, the candidate range chain[1:indx] below the checkpoint with both user-snapshot exclusions (disk and merge target), that the cleaner acts only when controller and replica agree on the checkpoint and never unlinks after a failed merge, that user deletion needs all RF replicas RW and a checkpoint that is not the victim, and the splice of file list / block map / activeDiskData at one index after re-parenting.",
+		Explanation: "Decides the refusals (head, latest, base, non-RW) dominating every mark-removed / unlink, the candidate range chain[1:indx] below the checkpoint with both user-snapshot exclusions (disk and merge target), that the cleaner acts only when controller and replica agree on the checkpoint and never unlinks after a failed merge, that user deletion needs all RF replicas RW and a checkpoint that is not the victim, and the splice of file list / block map / activeDiskData at one index after re-parenting. removeDiskNode decides 'the removed disk was the latest snapshot' on the unspliced list and moves info.Parent on that edge.",
 		NotDecided:  "that the external merge (sfold) preserves content.",
 	}
 	registry["C12"] = &propSpec{
 		Rules:       []ruleFn{ruleC12, ruleC12Chain, ruleC12Rollback, ruleC08CloseWho, ruleC12Publish, ruleC08Commit, ruleC11Refuse("C12-REFUSE"), ruleC06Snapstep, ruleErrFlow("C12-ERRFLOW"), ruleC08Order("C12-ORDER")},
-		Explanation: "Decides that every change of a persisted attribute is written to its metadata file on all success paths (or published only after the write), that request-supplied disk names are validated before any file operation, that open accepts every chain length create can produce, the commit order of createDisk, and (C12-PUBLISH) that createDisk / markDiskAsRemoved do not return an error after the in-memory chain was modified - the latter is violated today and recorded as a known finding.",
+		Explanation: "Decides that every change of a persisted attribute is written to its metadata file on all success paths (or published only after the write), that request-supplied disk names are validated before any file operation, that open accepts every chain length create can produce, the commit order of createDisk, and (C12-PUBLISH) that createDisk / markDiskAsRemoved do not return an error after the in-memory chain was modified - the latter is violated today and recorded as a known finding. removeDiskNode decides 'the removed disk was the latest snapshot' on the unspliced list and moves info.Parent on that edge.",
 		NotDecided:  "acyclicity/shape of the chain as a run-time graph; equality of the reopened chain with the previous one.",
 	}
 	registry["C13"] = &propSpec{
 		Rules:       []ruleFn{ruleC13Ctl, ruleFresh("C13-FRESH", fCtl+"UpdateCheckpoint"), ruleC03Gate, ruleC12, ruleC13Persist, ruleC08Atomic, ruleC08Err, ruleErrFlow("C13-ERRFLOW"), ruleGuardedBy("C13-GUARDEDBY")},
-		Explanation: "Decides that the snapshot fan-out and every mutating I/O run under the controller write lock (so they cannot interleave), that a volume snapshot needs RWReplicaCount==RF, goes to every non-ERR backend with identical arguments and reports per-replica failures; that the checkpoint is non-empty only when rw==RF, all RW chains agree on chain[1] and every replica stored it; that the checkpoint is recomputed before the lock is released after any membership change; and that the replica persists it.",
+		Explanation: "Decides that the snapshot fan-out and every mutating I/O run under the controller write lock (so they cannot interleave), that a volume snapshot needs RWReplicaCount==RF, goes to every non-ERR backend with identical arguments and reports per-replica failures; that the checkpoint is non-empty only when rw==RF, all RW chains agree on chain[1] and every replica stored it; that the checkpoint is recomputed before the lock is released after any membership change; and that the replica persists it. (GUARDEDBY) every read / write of a lock-protected field (frozen guard table) happens with the protecting mutex class held on all paths, in the function or at every call site of it.",
 		NotDecided:  "identical content of the snapshot across replicas.",
 	}
 	registry["C14"] = &propSpec{
 		Rules:       []ruleFn{ruleC14Lock, ruleC14Block, ruleC14Fatal, ruleC14Idx, ruleC14Wrap, ruleC17Matrix, ruleC17Srv, ruleC07AddOrder("C14-NODUP"), ruleC09, ruleWgDone("C14-WGDONE"), ruleNilOK("C14-NILOK"), ruleMakeLen("C14-MAKELEN"), ruleGuardedBy("C14-GUARDEDBY")},
-		Explanation: "Decides, for every production function: no double unlock (incl. deferred), no self-deadlock directly or through a callee, no return with a lock held, an acyclic lock order; no blocking send under the controller / replica-server lock outside the allow-listed consumer-backed queues; in the handler-reachable region only allow-listed terminators and single-value type assertions, bounds facts on chains received from replicas, no nil result dereferenced with its error ignored; every route wrapped by HandleError and action routes by checkAction.",
+		Explanation: "Decides, for every production function: no double unlock (incl. deferred), no self-deadlock directly or through a callee, no return with a lock held, an acyclic lock order; no blocking send under the controller / replica-server lock outside the allow-listed consumer-backed queues; in the handler-reachable region only allow-listed terminators and single-value type assertions, bounds facts on chains received from replicas, no nil result dereferenced with its error ignored; every route wrapped by HandleError and action routes by checkAction. (GUARDEDBY) every read / write of a lock-protected field (frozen guard table) happens with the protecting mutex class held on all paths, in the function or at every call site of it.",
 		NotDecided:  "panics inside third-party handlers, resource exhaustion, liveness of remote calls made under the lock.",
 	}
 	registry["C15"] = &propSpec{
@@ -87,17 +87,17 @@ func init() {
 	}
 	registry["C17"] = &propSpec{
 		Rules:       []ruleFn{ruleC17Attach, ruleC17Srv, ruleC17Matrix, ruleC17Status, ruleC11Refuse("C17-RW-ONLY"), ruleC10, ruleGuardedBy("C17-GUARDEDBY")},
-		Explanation: "Decides that every Server method uses the open replica only under a server lock and a nil test, that closed replicas refuse I/O, that a second Open is refused, that Close marks the replica CLOSED unconditionally, that writes succeed only in RW/WO, that removal and counter updates require RW, that attach requires state closed, and that the state->action table forbids chain-mutating actions while rebuilding / open outside closed / create outside initial, with every action route gated by checkAction.",
+		Explanation: "Decides that every Server method uses the open replica only under a server lock and a nil test, that closed replicas refuse I/O, that a second Open is refused, that Close marks the replica CLOSED unconditionally, that writes succeed only in RW/WO, that removal and counter updates require RW, that attach requires state closed, and that the state->action table forbids chain-mutating actions while rebuilding / open outside closed / create outside initial, with every action route gated by checkAction. (GUARDEDBY) every read / write of a lock-protected field (frozen guard table) happens with the protecting mutex class held on all paths, in the function or at every call site of it. (C17-STATUS) every state constant returned by Status / PrevStatus is cut off by the facts that define the state; an unreadable volume.meta is state error.",
 		NotDecided:  "'refused without side effects' for actions that pass the table and fail later.",
 	}
 	registry["C18"] = &propSpec{
 		Rules:       []ruleFn{ruleC18, ruleCanAdd("C18-ADMIT"), ruleC04Promote("C18-MODE"), ruleC07AddOrder("C18-ADD"), ruleC04Lists("C18-REMOVE"), ruleBuildRW("C18-INDEX"), ruleIndexMapUse("C18-INDEXUSE"), ruleFresh("C18-COUNT", fCtl+"UpdateVolStatus"), ruleC03Thresh, ruleGuardedBy("C18-GUARDEDBY")},
-		Explanation: "Decides that each mutation site preserves the pairing of the replica list with the backend map (append/AddBackend, splice/RemoveBackend, mode/SetMode, reset), that admission is dominated by the duplicate test, the one-WO rule and the replication-factor test in the lock region of the append, that index maps are rebuilt from scratch with every change, and that the RW count is recomputed before the lock is released.",
+		Explanation: "Decides that each mutation site preserves the pairing of the replica list with the backend map (append/AddBackend, splice/RemoveBackend, mode/SetMode, reset), that admission is dominated by the duplicate test, the one-WO rule and the replication-factor test in the lock region of the append, that index maps are rebuilt from scratch with every change, and that the RW count is recomputed before the lock is released. (GUARDEDBY) every read / write of a lock-protected field (frozen guard table) happens with the protecting mutex class held on all paths, in the function or at every call site of it.",
 		NotDecided:  "the invariants as statements over all reachable states (only preservation by every mutation site).",
 	}
 	registry["C19"] = &propSpec{
 		Rules:       []ruleFn{ruleC19Promote("C19-PROMOTE"), ruleC19Clone, ruleC07AddOrder("C19-WO"), ruleSyncFilesAs("C19-SYNCFILES", 5), ruleC08Err, ruleErrFlow("C19-ERRFLOW"), ruleSendFile("C19-SENDFILE")},
-		Explanation: "Decides that the clone procedure reports success only after SetRebuilding(true), the copy of the chain from S, UpdateCloneInfo(S, S's revision), reload, block-map rebuild and SetRebuilding(false) each succeeded in that order; that the status becomes completed only after that (or if it already was), inProgress before the copy, error after a failure, and is persisted; and that the new controller promotes the replica only after reading a status that is none of empty / inProgress / error, removing the replica on error.",
+		Explanation: "Decides that the clone procedure reports success only after SetRebuilding(true), the copy of the chain from S, UpdateCloneInfo(S, S's revision), reload, block-map rebuild and SetRebuilding(false) each succeeded in that order; that the status becomes completed only after that (or if it already was), inProgress before the copy, error after a failure, and is persisted; and that the new controller promotes the replica only after reading a status that is none of empty / inProgress / error, removing the replica on error. (C19-SENDFILE) a file transfer counts as done only after two consecutive successful polls with exit code 0.",
 		NotDecided:  "byte identity with S; the interleaving of the copy with the other controller's polling as a schedule.",
 	}
 }
